@@ -426,6 +426,7 @@ Qed.
 Theorem roundtrip_single_statement env t pt tags fields ms v v0 q :
   get_arg_info env t = BOk (StructInfo t tags fields) ->
   get_all_struct_members (StructInfo t tags fields) = BOk ms ->
+  (N.of_nat (length ms) <= max_int)%N ->
   t_kind (tget env pt) = KPtr -> t_elem (tget env pt) = t ->
   (forall f, In f fields -> field_ok env t v f) ->
   (forall f, In f fields -> field_by_index v0 (sf_index f) <> None) ->
@@ -439,9 +440,9 @@ Theorem roundtrip_single_statement env t pt tags fields ms v v0 q :
      scan_row env (map snd ms) (map snd sl) cells [AVal pt (VPtr v0)] = (Some [(t, v')], None)) /\
     forall f, In f fields -> field_by_index v' (sf_index f) = field_by_index v (sf_index f).
 Proof.
-  intros GI GM Kp Ep FOK V0 Fr.
+  intros GI GM BND Kp Ep FOK V0 Fr.
   destruct (roundtrip_single_full env t pt tags fields ms v v0 (q_inputCount q) (q_argUsed q)
-              GI GM Kp Ep FOK V0)
+              GI GM BND Kp Ep FOK V0)
     as [bcs [cnt' [used' [tuple [cells [v' [BC [_ [OA [SEL [SR [EQ NL]]]]]]]]]]]].
   pose proof (add_to_query_insert_ok env [(t, v)] q _ _ _ _ _ BC) as AQ.
   destruct (equiv_handwritten env [(t, v)] q _ _ AQ Fr) as [bcs2 [c2 [u2 [n2 [BC2 [_ EH]]]]]].
